@@ -1031,27 +1031,27 @@ def gen_scenarios(tier, r):
     # going from 5 to 6 digits; and > 256 requests on ONE encrypted connection (the counter passes 255 ACROSS calls)
     def sized(host, total, make):
         k0 = total - len(ref_render("PUT", b"/characteristics", host, "json", G.ref_compact(make(0))))
-        for k in range(max(0, k0 - 2), k0 + 8):
+        for k in range(max(0, k0 - 10), k0 + 2):
             if len(ref_render("PUT", b"/characteristics", host, "json", G.ref_compact(make(k)))) == total:
                 return make(k)
         return None
-    big_hosts = (HOSTS[2], HOSTS[6]) if tier == "quick" else (HOSTS[2], HOSTS[6], HOSTS[9], HOSTS[0])
+    big_hosts = (HOSTS[6],) if tier == "quick" else (HOSTS[2], HOSTS[6], HOSTS[9], HOSTS[0])
     for j, (hk, host) in enumerate(big_hosts):
-        totals = (65535, 65536, 65537, 131072) if tier == "quick" else (65535, 65536, 65537, 66560, 131072, 262144, 262145)
+        totals = (65536, 65537) if tier == "quick" else (65535, 65536, 65537, 66560, 131072, 262144, 262145)
         ops = [("list_accessories",)]
-        for total in totals[j % 2:] if tier == "quick" else totals:
+        for total in totals:
             v = sized(host, total, lambda k: {"v": "a" * k})
             if v is not None:
                 ops.append(("put_json", "/characteristics", v))
-        ops.append(("put_characteristics", [(1, 9, "c" * (300000 if tier == "quick" else 1100000))], r.choice(ARG_KINDS)))
+        ops.append(("put_characteristics", [(1, 9, "c" * (262500 if tier == "quick" else 1100000))], r.choice(ARG_KINDS)))
         ops.append(("get_characteristics", [(1, 9)], list))
         scs.append(single("secure", host, 5001, ops))
         pl = [("put", "/characteristics", bytes((k * 7 + 3) % 256 for k in range(n)), r.choice([CT_JSON, CT_TLV]))
-              for n in ((65535, 65536, 99999, 100000) if tier == "quick" else (65535, 65536, 65537, 99999, 100000, 999999, 1000000))]
-        scs.append(single("plain", host, 5001, pl + [op for op in ops if op[0] == "put_json"][:2] + [("get", "/accessories")]))
+              for n in ((65536, 99999, 100000) if tier == "quick" else (65535, 65536, 65537, 99999, 100000, 999999, 1000000))]
+        scs.append(single("plain", host, 5001, pl + [op for op in ops if op[0] == "put_json"][:1 if tier == "quick" else 3] + [("get", "/accessories")]))
     for j in range(1 if tier == "quick" else 4):
         hk, host = HOSTS[(4 + 3 * j) % len(HOSTS)]
-        ops = [("list_accessories",)] + [("get", TARGETS[k % 3]) for k in range(250 + 20 * j)]
+        ops = [("list_accessories",)] + [("get", TARGETS[k % 3] + ("?n=%d" % k if k % 50 == 49 else "")) for k in range(300 + 20 * j)]
         ops += [("put_json", "/characteristics", {"v": "d" * 2500}), ("get_characteristics", [(1, 9), (2, 3)], "gen"),
                 ("put_characteristics", [(1, 9, "e" * 1500)], "gen")]
         scs.append(single("secure", host, 5001, ops))
